@@ -149,8 +149,6 @@ Section Claims.
     adm_lp : forall i, 0 < S "s.abs_G0_over_B0" i;
     adm_dvp : forall i, S "s.d_varphi_d_phi" i <> 0
   }.
-  (* additionally needed at second order (the property excludes |iota - N| ~ 0 there) *)
-  Definition admissible2 : Prop := forall i, S "s.iotaN" i <> 0.
 
   (* the sigma equation holds at the returned solution: the residual program evaluated at
      xs = sigma, xi = iota vanishes (oracle specification of the Newton solve; same as props/C09_spec.v) *)
